@@ -265,6 +265,22 @@ TARGETS = {
 }
 
 
+def _load_plugins():
+    """harness/gen/<name>.py may add generated modules: TARGETS = {'Name': fn(repo) -> lean text}"""
+    import importlib
+    d = os.path.join(os.path.dirname(os.path.abspath(__file__)), 'gen')
+    if not os.path.isdir(d):
+        return
+    sys.path.insert(0, os.path.dirname(os.path.dirname(os.path.abspath(__file__))))
+    for f in sorted(os.listdir(d)):
+        if f.endswith('.py') and not f.startswith('_'):
+            m = importlib.import_module('harness.gen.' + f[:-3])
+            TARGETS.update(getattr(m, 'TARGETS', {}))
+
+
+_load_plugins()
+
+
 def write_if_changed(path, text):
     old = None
     if os.path.exists(path):
@@ -286,7 +302,7 @@ def regenerate(repo, lean_dir, names=None):
         path = os.path.join(lean_dir, 'PyPhysim', 'Generated', name + '.lean')
         try:
             text = TARGETS[name](repo)
-        except (TranslateError, SyntaxError, OSError, KeyError, AttributeError, IndexError) as e:
+        except Exception as e:  # anything outside the fragment = broken tie, reported by the check
             res[name] = 'error: %s: %s' % (type(e).__name__, e)
             continue
         res[name] = 'rewritten' if write_if_changed(path, text) else 'unchanged'
